@@ -247,6 +247,7 @@ func Catalogue() []Adapter {
 	for _, g := range []Geometry{G4_30, G6_62, G4_28_30} {
 		out = append(out, poolAllocatorAdapter(g), localAllocatorAdapter(g))
 	}
+	out = append(out, poolAllocatorDualAdapter(G4_30))
 	out = append(out, dhcpPoolAdapter(G4_29, 0), dhcpPoolAdapter(G4_29hi, 0), dhcpPoolAdapter(G4_28, 3), dhcpPoolAdapter(G4_30, 0)) // the /30 has one client address: a second holder of it is visible with two subscribers
 	out = append(out, v6AddrPoolAdapter(G6_125), v6PrefixPoolAdapter(G6_61), v6PrefixPoolAdapter(G6_57))
 	out = append(out, pppoePoolAdapter(G4_29), pppoePoolAdapter(G4_29hi))
